@@ -7,7 +7,9 @@
     by a counting global allocator on every sampled call.                                    *)
 From Coq Require Import ZArith List Bool String.
 From Rubato.Model Require Import Num Base Async Resamplers.
-From Rubato.Proofs Require Import ResetP.
+From Rubato.Model Require Import Fft.
+From Rubato.Gen Require Import SynchroGen.
+From Rubato.Proofs Require Import ResetP ShapeFftP.
 From Rubato.Gen Require Import Summary.
 Import ListNotations.
 
@@ -16,8 +18,39 @@ Theorem C09_shape_invariant : forall (C : CNum) (S : SNum C) St (A : arch St) s 
   map (@List.length snum) (as_buf s') = map (@List.length snum) (as_buf s).
 Proof. intros C S St A s wi wo m s' c o H. exact (proj1 (pib_shape A s wi wo m s' c o H)). Qed.
 
+(** the synchronous resamplers, any arithmetic, any spectral core: overlap buffers, internal input / output buffers and the
+    caller's output slices keep their lengths through every successful call *)
+Theorem C09_fft_in_shape_invariant : forall (C : CNum) (S : SNum C) unit_fn (s : fstate FftFixedIn) wi wo m s' c o,
+  (1 <= FftFixedIn_fft_size_out (fs_ctl s))%Z ->
+  List.length (fs_overlaps s) = Z.to_nat (xi_val_channels (fs_ctl s)) ->
+  List.length (fs_bufs s) = Z.to_nat (xi_val_channels (fs_ctl s)) ->
+  xi_pib unit_fn s wi wo m = Ok (s', c, o) ->
+  map (@List.length snum) (fs_overlaps s') = map (@List.length snum) (fs_overlaps s) /\
+  map (@List.length snum) (fs_bufs s') = map (@List.length snum) (fs_bufs s) /\
+  map (@List.length snum) o = map (@List.length snum) wo /\ List.length (fs_mask s') = Z.to_nat (xi_val_channels (fs_ctl s)).
+Proof. intros C S. exact (@xi_pib_shape C S). Qed.
+Theorem C09_fft_out_shape_invariant : forall (C : CNum) (S : SNum C) unit_fn (s : fstate FftFixedOut) wi wo m s' c o,
+  (1 <= FftFixedOut_fft_size_out (fs_ctl s))%Z ->
+  List.length (fs_overlaps s) = Z.to_nat (xo_val_channels (fs_ctl s)) ->
+  List.length (fs_bufs s) = Z.to_nat (xo_val_channels (fs_ctl s)) ->
+  xo_pib unit_fn s wi wo m = Ok (s', c, o) ->
+  map (@List.length snum) (fs_overlaps s') = map (@List.length snum) (fs_overlaps s) /\
+  map (@List.length snum) (fs_bufs s') = map (@List.length snum) (fs_bufs s) /\
+  map (@List.length snum) o = map (@List.length snum) wo /\ List.length (fs_mask s') = Z.to_nat (xo_val_channels (fs_ctl s)).
+Proof. intros C S. exact (@xo_pib_shape C S). Qed.
+Theorem C09_fft_inout_shape_invariant : forall (C : CNum) (S : SNum C) unit_fn (s : fstate FftFixedInOut) wi wo m s' c o,
+  (0 <= FftFixedInOut_chunk_size_out (fs_ctl s))%Z ->
+  List.length (fs_overlaps s) = Z.to_nat (xio_val_channels (fs_ctl s)) ->
+  xio_pib unit_fn s wi wo m = Ok (s', c, o) ->
+  map (@List.length snum) (fs_overlaps s') = map (@List.length snum) (fs_overlaps s) /\ fs_bufs s' = fs_bufs s /\
+  map (@List.length snum) o = map (@List.length snum) wo /\ List.length (fs_mask s') = Z.to_nat (xio_val_channels (fs_ctl s)).
+Proof. intros C S. exact (@xio_pib_shape C S). Qed.
+
 Theorem C09_no_alloc_constructs : alloc_constructs_in_monitored = [].
 Proof. reflexivity. Qed.
 
 Print Assumptions C09_shape_invariant.
 Print Assumptions C09_no_alloc_constructs.
+Print Assumptions C09_fft_in_shape_invariant.
+Print Assumptions C09_fft_out_shape_invariant.
+Print Assumptions C09_fft_inout_shape_invariant.
